@@ -20,7 +20,11 @@ RULE = ("radial 110/20/0.4 kV nets with 2-4 transformers (2W and one optional 3W
         "DiscreteTapControl / ContinuousTapControl over 1-4 transformers, CharacteristicControl over several sgens, "
         "TapDependentImpedance over one or several transformers with restore on/off; DiscreteTapControl with hunting_limit in "
         "{None,0,1,2,3}) with levels in {0,1,2,[0,1]}, random orders, in_service flags, start taps anywhere in [tap_min,tap_max], "
-        "max_iter in {30,3,1,0}; non-trivial = at least one control_step was executed and at least two controllers are in service")
+        "max_iter in {30,3,1,0}; non-trivial = at least one control_step was executed and at least two controllers are in service. "
+        "FIXED shares of every run (forced, not left to chance): every 8th case has a lowest level -1 holding only a default "
+        "ConstControl (no initial run) below the other controllers; every 8th case has a scalar-index tap controller on a trafo3w "
+        "with tap_side mv/lv; 12 second-run cases (run_control, edit the loads, run_control again: fresh results, converged, band "
+        "or limit); 12 trafo3w cases cycling over (tap_side, controlled side) with the physical needed-direction check")
 ASSUMPTIONS = ["the power flow is an oracle: the model consumes the result vectors recorded from the real run function",
                "nothing_to_do(net) of a tap controller is constant during one run_control call (checked on every is_converged call)",
                "is_converged of tap and const controllers does not write to the element tables (checked by snapshot on every call)"]
@@ -67,11 +71,7 @@ def build_net(rng):
         if rng.random() < 0.5:
             pp.create_sgen(net, lv, p_mw=rng.randint(0, 48) / 128, q_mvar=0.0)
     if rng.random() < 0.3:
-        m2 = pp.create_bus(net, 20.0)
-        l2 = pp.create_bus(net, 10.0)
-        pp.create_transformer3w(net, hv, m2, l2, std_type="63/25/38 MVA 110/20/10 kV")
-        pp.create_load(net, m2, p_mw=rng.randint(0, 40) / 2, q_mvar=rng.randint(0, 16) / 2)
-        pp.create_load(net, l2, p_mw=rng.randint(0, 40) / 2, q_mvar=rng.randint(0, 16) / 2)
+        _add_trafo3w(rng, net, hv)
     # tap data variety
     for t in net.trafo.index:
         if rng.random() < 0.25:
@@ -86,6 +86,17 @@ def build_net(rng):
         net.trafo3w.at[t, "tap_side"] = rng.choice(["hv", "hv", "mv", "lv"])
         net.trafo3w.at[t, "tap_pos"] = float(rng.randint(-10, 10))
     return net
+
+
+def _add_trafo3w(rng, net, hv=0):
+    m2 = pp.create_bus(net, 20.0)
+    l2 = pp.create_bus(net, 10.0)
+    pp.create_transformer3w(net, hv, m2, l2, std_type="63/25/38 MVA 110/20/10 kV")
+    pp.create_load(net, m2, p_mw=rng.randint(0, 40) / 2, q_mvar=rng.randint(0, 16) / 2)
+    pp.create_load(net, l2, p_mw=rng.randint(0, 40) / 2, q_mvar=rng.randint(0, 16) / 2)
+    t = net.trafo3w.index[-1]
+    net.trafo3w.at[t, "tap_side"] = rng.choice(["hv", "hv", "mv", "lv"])
+    net.trafo3w.at[t, "tap_pos"] = float(rng.randint(-10, 10))
 
 
 def add_controllers(rng, net, allow_frac):
@@ -272,9 +283,34 @@ def slots_term(dct):
 def one_case(ctx, rng, forced=None):
     allow_frac = rng.random() < 0.15
     net = build_net(rng)
+    if forced == "t3mv" and not len(net.trafo3w):
+        _add_trafo3w(rng, net)
     descs = add_controllers(rng, net, allow_frac)
     if not descs:
         descs = [{"type": "const", "obj": pc.ConstControl(net, "load", "p_mw", int(net.load.index[0]))}]
+    if forced == "lowconst":
+        # FIXED share: a lowest level (-1) whose only controller needs no initial power flow (default ConstControl,
+        # initial_run=False) below the levels >= 0 of the other controllers (check_for_initial_run must look at ALL levels)
+        descs.append({"type": "const", "obj": pc.ConstControl(net, "load", "p_mw", int(net.load.index[0]))})
+        if not any(d["type"] in ("disc", "cont", "discv", "contv") for d in descs):
+            tid = int(net.trafo.index[0])
+            descs.append({"type": "disc", "obj": pc.DiscreteTapControl(net, tid, 0.99, 1.01, side="lv", level=1, order=7),
+                          "element": "trafo", "tid": tid, "side": "lv"})
+    if forced == "t3mv":
+        # FIXED share: scalar-index tap controller on a three-winding transformer whose tap changer sits on the MV (or LV) winding
+        t3 = int(net.trafo3w.index[0])
+        net.trafo3w.at[t3, "tap_side"] = rng.choice(["mv", "mv", "lv"])
+        net.trafo3w.at[t3, "in_service"] = True
+        sd = "mv" if net.trafo3w.at[t3, "tap_side"] == "mv" else "lv"
+        vs = rng.choice([0.97, 1.0, 1.03])
+        if rng.random() < 0.6:
+            c = pc.DiscreteTapControl(net, t3, vs - 0.01, vs + 0.01, side=sd, element="trafo3w", level=0, order=7)
+            descs.append({"type": "disc", "obj": c, "element": "trafo3w", "tid": t3, "side": sd})
+        else:
+            c = pc.ContinuousTapControl(net, t3, vm_set_pu=vs, tol=1e-3, side=sd, element="trafo3w", level=0, order=7)
+            descs.append({"type": "cont", "obj": c, "element": "trafo3w", "tid": t3, "side": sd})
+    if forced:
+        ctx.count("forced_" + forced)
     max_iter = rng.choice([30, 30, 30, 30, 3, 1, 0, 8])
     cel = rng.random() < 0.9
     cod = rng.random() < 0.1
@@ -441,7 +477,7 @@ def one_case(ctx, rng, forced=None):
                     ctx.count("unconverged_lower_level_with_check_each_level_off")
                     continue
                 kind = KF_MULTI if (multi and min(lv) < last_level) else "spec"
-                if kind == "spec" and _tdi_restored(d, trace):
+                if kind == "spec" and (_tdi_restored(d, trace) or _shares_restored_slot(d, in_service, trace)):
                     kind = KF_TDI
                 viol.append((kind, "run_control returned but controller %d (%s, level %s) reports not converged" % (
                     d["cid"], d["type"], lv)))
@@ -569,6 +605,20 @@ def _tdi_restored(d, trace):
         return False
     init = steps[-1][3][0]
     return any(abs(steps[-1][2][slot] - v0) > 1e-12 for (_, slot), v0 in zip(d["ios"], init))
+
+
+def _out_slots(d):
+    if d["type"] == "char":
+        return {d["out"]}
+    if d["type"] == "charv":
+        return {slot for _, slot in d["ios"]}
+    return set()
+
+
+def _shares_restored_slot(d, in_service, trace):
+    """the same recorded finding seen through another characteristic controller: it writes a slot that a restoring
+    TapDependentImpedance has put back to its initial value after the last calculation"""
+    return any(o is not d and _tdi_restored(o, trace) and (_out_slots(o) & _out_slots(d)) for o in in_service)
 
 
 def _strip(net):
@@ -799,6 +849,132 @@ def _hunting_oracle(ctx, rng):
         ctx.violation("spec", "hunting_limit=%r changes the run: outcome %s vs %s, taps %s vs %s" % (hl, o1, o2, t1, t2), case)
 
 
+def _fresh_bad(net):
+    snap = {t: net[t].values.astype(float).copy() for t in ("res_bus", "res_trafo", "res_line", "res_trafo3w") if t in net and len(net[t])}
+    n2 = copy.deepcopy(net)
+    pp.runpp(n2, **PF)
+    for t, a in snap.items():
+        b_ = n2[t].values.astype(float)
+        if a.shape != b_.shape or not np.allclose(a, b_, rtol=0, atol=1e-6, equal_nan=True):
+            return "%s differs from a fresh power flow of the final element state (max abs diff %.3g)" % (
+                t, float(np.nanmax(np.abs(a - b_))) if a.shape == b_.shape else float("nan")), n2
+    return None, n2
+
+
+def _second_run_oracle(ctx, rng, k):
+    """FIXED share of every run: a lowest level that needs no initial power flow (default ConstControl: level -1,
+    initial_run=False, already applied by the first call) below a tap controller; run_control, the user edits the loads,
+    run_control AGAIN: on return the results must be a fresh power flow of the final element state, every controller
+    converged, the voltage in the band or the tap at a limit"""
+    net = build_net(rng)
+    net.trafo["in_service"] = True
+    for t in net.trafo.index:
+        net.trafo.at[t, "tap_pos"] = 0.0
+    pc.ConstControl(net, "load", "p_mw", int(net.load.index[0]))                 # level -1, order -1, initial_run False
+    tid = int(net.trafo.index[0]) if k % 2 == 0 else int(rng.choice(list(net.trafo.index)))
+    vs = rng.choice([0.99, 1.0, 1.01, 1.02])
+    if k % 3 == 2:
+        c = pc.ContinuousTapControl(net, tid, vm_set_pu=vs, tol=1e-3, side="lv", level=k % 2)
+        desc = {"type": "cont", "obj": c, "element": "trafo", "tid": tid, "side": "lv", "cid": int(c.index)}
+    else:
+        c = pc.DiscreteTapControl(net, tid, vs - 0.01, vs + 0.01, side="lv", level=k % 2)
+        desc = {"type": "disc", "obj": c, "element": "trafo", "tid": tid, "side": "lv", "cid": int(c.index)}
+    case = {"kind": "second_run", "controller": desc["type"], "trafo": tid, "vm_set": vs}
+    try:
+        pc.run_control(net, **PF)
+    except Exception as e:
+        ctx.count("second_run_first_raised_%s" % type(e).__name__)
+        ctx.case(case, nontrivial=False)
+        return
+    # the user changes the element state
+    f = rng.choice([0.0, 0.25, 2.5, 4.0])
+    net.load["p_mw"] = net.load.p_mw.values * f + rng.choice([0.0, 0.05])
+    net.load["q_mvar"] = net.load.q_mvar.values * f
+    case.update(net=pp.to_json(_strip(net)), load_factor=f)
+    try:
+        pc.run_control(net, **PF)
+    except (pp.auxiliary.ControllerNotConverged, pp.auxiliary.NetCalculationNotConverged, pp.LoadflowNotConverged) as e:
+        ctx.count("second_run_raised_%s" % type(e).__name__)
+        ctx.case(case, nontrivial=True)
+        return
+    ctx.count("second_run_ok")
+    ctx.case(case, nontrivial=True)
+    bad, _ = _fresh_bad(net)
+    if bad:
+        ctx.violation("spec", "second run_control call after an edit of the loads: " + bad, case)
+        return
+    for idx in net.controller.index[net.controller.in_service]:
+        if not net.controller.object.at[idx].is_converged(net):
+            ctx.violation("spec", "second run_control call returned but controller %d reports not converged" % idx, case)
+            return
+    w = _band_or_limit(net, desc)
+    if w and not static_ntd(net, desc):
+        ctx.violation("spec", "second run_control call: " + w, case)
+
+
+T3_COMBOS = [("mv", "mv"), ("hv", "mv"), ("mv", "mv"), ("lv", "lv"), ("hv", "lv"), ("mv", "mv")]   # (tap_side, controlled side)
+
+
+def _trafo3w_oracle(ctx, rng, k):
+    """FIXED share of every run: scalar-index tap controller on a three-winding transformer with the tap changer on the
+    hv / mv / lv winding; on return: in the band (within tolerance) or at the tap limit in the NEEDED direction - checked
+    physically: one step back from the limit must not bring the voltage closer to the band -, taps in range, fresh results"""
+    tap_side, side = T3_COMBOS[k % len(T3_COMBOS)]
+    net = empty_net()
+    bh, bm, bl = pp.create_bus(net, 110.0), pp.create_bus(net, 20.0), pp.create_bus(net, 10.0)
+    pp.create_ext_grid(net, bh, vm_pu=rng.choice([0.98, 1.0, 1.02]))
+    pp.create_transformer3w(net, bh, bm, bl, std_type="63/25/38 MVA 110/20/10 kV")
+    net.trafo3w.at[0, "tap_side"] = tap_side
+    net.trafo3w.at[0, "tap_pos"] = float(rng.choice([0, 0, -2, 3]))
+    pp.create_load(net, bm, p_mw=rng.randint(4, 50) / 2, q_mvar=rng.randint(0, 20) / 2)
+    pp.create_load(net, bl, p_mw=rng.randint(2, 30) / 2, q_mvar=rng.randint(0, 10) / 2)
+    bus = bm if side == "mv" else bl
+    pp.runpp(net, **PF)
+    vm0 = float(net.res_bus.vm_pu.at[bus])
+    # the voltage starts outside the band; every third case needs more steps than the tap range offers
+    off = rng.choice([0.03, -0.03, 0.05, -0.05]) if k % 3 else rng.choice([0.3, -0.3])
+    vs = round(vm0 + off, 3)
+    disc = k % 4 != 3
+    if disc:
+        c = pc.DiscreteTapControl(net, 0, vs - 0.008, vs + 0.008, side=side, element="trafo3w")
+        lo_b, hi_b = vs - 0.008, vs + 0.008
+    else:
+        c = pc.ContinuousTapControl(net, 0, vm_set_pu=vs, tol=1e-3, side=side, element="trafo3w")
+        lo_b, hi_b = vs / (1 + 1e-3), vs / (1 - 1e-3)
+    case = {"kind": "trafo3w_scalar", "tap_side": tap_side, "side": side, "type": "disc" if disc else "cont", "vm_start": vm0,
+            "band": [lo_b, hi_b], "net": pp.to_json(_strip(net))}
+    try:
+        pc.run_control(net, **PF)
+    except (pp.auxiliary.ControllerNotConverged, pp.auxiliary.NetCalculationNotConverged, pp.LoadflowNotConverged) as e:
+        ctx.count("trafo3w_raised_%s" % type(e).__name__)
+        ctx.case(case, nontrivial=True)
+        return
+    ctx.case(case, nontrivial=True)
+    bad, fresh = _fresh_bad(net)
+    if bad:
+        ctx.violation("spec", "trafo3w tap controller (tap_side %s, side %s): %s" % (tap_side, side, bad), case)
+        return
+    tp, tmin, tmax = (float(net.trafo3w.at[0, x]) for x in ("tap_pos", "tap_min", "tap_max"))
+    vm = float(fresh.res_bus.vm_pu.at[bus])
+    dist = lambda v: max(lo_b - v, v - hi_b, 0.0)
+    if not tmin <= tp <= tmax:
+        ctx.violation("spec", "trafo3w tap controller moved tap_pos to %r outside [%r, %r]" % (tp, tmin, tmax), case)
+    elif dist(vm) == 0.0:
+        ctx.count("trafo3w_%s_%s_in_band" % (tap_side, side))
+    elif tp not in (tmin, tmax):
+        ctx.violation("spec", "trafo3w tap controller (tap_side %s, side %s) returned with vm_pu %.5f outside [%.4f, %.4f] and "
+                      "tap_pos %r not at a limit" % (tap_side, side, vm, lo_b, hi_b, tp), case)
+    else:
+        ctx.count("trafo3w_%s_%s_at_limit" % (tap_side, side))
+        back = copy.deepcopy(net)
+        back.trafo3w.at[0, "tap_pos"] = tp + (1 if tp == tmin else -1)
+        pp.runpp(back, **PF)
+        vb = float(back.res_bus.vm_pu.at[bus])
+        if dist(vb) < dist(vm) - 1e-6:
+            ctx.violation("spec", "trafo3w tap controller (tap_side %s, controlled side %s): vm_pu %.5f outside [%.4f, %.4f] with tap_pos %r "
+                          "at the limit in the WRONG direction (one step back gives vm_pu %.5f)" % (tap_side, side, vm, lo_b, hi_b, tp, vb), case)
+
+
 def _cmp_slots(a, b):
     """a: dict from impl; b: list of [k, v] from model"""
     bd = {k: v for k, v in b}
@@ -892,7 +1068,7 @@ def run(ctx):
     for k in range(ctx.n(80, 1500)):
         # ordering is compared on the table before the run
         st = rng.getstate()
-        term, oterm, impl, case, ctab, descs = one_case(ctx, rng)
+        term, oterm, impl, case, ctab, descs = one_case(ctx, rng, forced={0: "lowconst", 4: "t3mv"}.get(k % 8))
         terms.append(term)
         oterms.append(oterm)
         impls.append(impl)
@@ -926,6 +1102,10 @@ def run(ctx):
         _multi_element_oracle(ctx, rng)
     for k in range(ctx.n(12, 150)):
         _hunting_oracle(ctx, rng)
+    for k in range(ctx.n(12, 120)):
+        _second_run_oracle(ctx, rng, k)
+    for k in range(ctx.n(12, 120)):
+        _trafo3w_oracle(ctx, rng, k)
 
 
 def replay(ctx, rec):
